@@ -5,7 +5,8 @@ from vlib.harness import Violation
 
 PID = "C30"
 RULE = ("text pairs as line lists over an alphabet with hostile lines ('', ' ', '-', '+', '--- a', '+++ b', "
-        "'@@ -1 +1 @@', '\\\\ No newline at end of file', repeated lines), 0..14 lines, with/without final newline, "
+        "'@@ -1 +1 @@', '\\\\ No newline at end of file', repeated lines, lines containing form feed / VT / CR / NEL / U+2028 and the other "
+        "characters str.splitlines() also splits on), 0..14 lines, with/without final newline, "
         "empty texts, built as an edit script (keep/delete/insert/replace) of a common base so hunks are several "
         "and close; context sizes 0..5; protocol level: 1..4 components with .ml/.mli texts. Oracle: "
         "apply_patch(a, make_patch(a,b,n)) == b, apply_patch(b, ..., revert=True) == a, identical -> empty patch, "
@@ -15,8 +16,12 @@ RULE = ("text pairs as line lists over an alphabet with hostile lines ('', ' ', 
 HOSTILE = ["", " ", "-", "+", "--- a", "+++ b", "@@ -1 +1 @@", "\\ No newline at end of file", "@", "\\", "---", "+++",
            "-x", "+x", " x"]
 PLAIN = ["x", "y", "let a = 1", "let a = 2", "end", "x"]
+# characters that str.splitlines() treats as line boundaries although the line model of a source file is "\n only"
+BOUNDARY_CHARS = ["\x0c", "\x0b", "\r", "\x1c", "\x1d", "\x1e", "\x85", "\u2028", "\u2029"]
+ODD = ["let a = 1\x0c", "\x0c", "(* page *)\x0c(* break *)", "x\r", "\r", "a\u2028b", "end\x85", "\x0b", "y\x1c", "\x0clet b = 2"]
 LINE = st.one_of(st.sampled_from(PLAIN), st.sampled_from(HOSTILE),
-                 st.text(alphabet="ab -+@\\\t", min_size=0, max_size=4))
+                 st.text(alphabet="ab -+@\\\t", min_size=0, max_size=4), st.sampled_from(PLAIN + ODD),
+                 st.text(alphabet=["a", " ", "-", "+"] + BOUNDARY_CHARS, min_size=1, max_size=3))
 
 
 @st.composite
